@@ -570,18 +570,105 @@ func (c *Ctx) checkInterfaceEquality(r *Report, rule string) {
 		}
 		return false
 	}
-	safeSide := func(v ssa.Value) bool {
+	var safeSideD func(v ssa.Value, depth int) bool
+	safeSideD = func(v ssa.Value, depth int) bool {
+		if depth > 3 {
+			return false
+		}
 		switch x := v.(type) {
 		case *ssa.MakeInterface:
 			return comparableDeep(x.X.Type(), 0)
 		case *ssa.Const:
 			return true
 		case *ssa.UnOp:
+			// a variable captured by reference and written once where it is declared (a parameter of the enclosing function)
+			if fv, ok := x.X.(*ssa.FreeVar); ok && x.Op == token.MUL {
+				fn := fv.Parent()
+				idx := -1
+				for i, f := range fn.FreeVars {
+					if f == fv {
+						idx = i
+					}
+				}
+				outer := fn.Parent()
+				if idx < 0 || outer == nil {
+					return false
+				}
+				found, all := false, true
+				eachInstr(outer, func(in ssa.Instruction) {
+					mc, ok := in.(*ssa.MakeClosure)
+					if !ok || mc.Fn != ssa.Value(fn) || idx >= len(mc.Bindings) {
+						return
+					}
+					al, ok := mc.Bindings[idx].(*ssa.Alloc)
+					if !ok {
+						all = false
+						return
+					}
+					var only ssa.Value
+					stores := 0
+					for _, ref := range *al.Referrers() {
+						if st, ok := ref.(*ssa.Store); ok && st.Addr == ssa.Value(al) {
+							stores++
+							only = st.Val
+						}
+					}
+					// the closure itself must not write it
+					for _, ref := range *fv.Referrers() {
+						if st, ok := ref.(*ssa.Store); ok && st.Addr == ssa.Value(fv) {
+							stores += 2
+						}
+					}
+					found = true
+					if stores != 1 || !safeSideD(only, depth+1) {
+						all = false
+					}
+				})
+				return found && all
+			}
 			// a package-level variable of interface type initialised once (object.NULL-like sentinels) is not tracked: not safe
 			return false
+		case *ssa.Parameter:
+			// what every caller passes (the comparison moved into a helper)
+			sites, ok := c.argsAtCallSites(x)
+			if !ok {
+				return false
+			}
+			for _, s := range sites {
+				if !safeSideD(s.v, depth+1) {
+					return false
+				}
+			}
+			return true
+		case *ssa.FreeVar:
+			// a variable captured by a closure: what it is bound to where the closure is made
+			fn := x.Parent()
+			idx := -1
+			for i, fv := range fn.FreeVars {
+				if fv == x {
+					idx = i
+				}
+			}
+			outer := fn.Parent()
+			if idx < 0 || outer == nil {
+				return false
+			}
+			found, all := false, true
+			eachInstr(outer, func(in ssa.Instruction) {
+				mc, ok := in.(*ssa.MakeClosure)
+				if !ok || mc.Fn != ssa.Value(fn) || idx >= len(mc.Bindings) {
+					return
+				}
+				found = true
+				if !safeSideD(mc.Bindings[idx], depth+1) {
+					all = false
+				}
+			})
+			return found && all
 		}
 		return false
 	}
+	safeSide := func(v ssa.Value) bool { return safeSideD(v, 0) }
 	n := 0
 	for _, fn := range c.ModuleSSAFuncs() {
 		counts := 0
